@@ -100,7 +100,7 @@ func modelIO(c *ctx, bufSize int, limit int, sizes []uint64) (bool, uint64) {
 	}
 	a := ask(c, sx.L(sx.N(zh.ReqIO), sx.I(bufSize), lim, sx.Nums(sizes)))
 	if _, bad := sx.IsErr(a); bad {
-		must(fmt.Errorf("model rejected the IO request"))
+		mustH(fmt.Errorf("model rejected the IO request"))
 	}
 	return a.L[0].N == 1, a.L[1].N
 }
@@ -476,7 +476,7 @@ func checkC18(c *ctx) {
 		c.Case(fmt.Sprintf("pre-%d", i), true)
 		a := ask(c, sx.L(sx.N(zh.ReqCancel), sx.N(0), sx.Nums(evs)))
 		if len(a.L) != 0 {
-			must(fmt.Errorf("cancel model: closed-before-call did not cancel"))
+			mustH(fmt.Errorf("cancel model: closed-before-call did not cancel"))
 		}
 		stride := 1
 		if c.Quick && len(bounds) > 400 {
